@@ -3,7 +3,7 @@ import ast
 import re
 
 from ..model import AnalysisError, Model, walk_no_nested, norm_stmt
-from .. import flow, protocol, dispatch, replay, siblings
+from .. import flow, protocol, dispatch, replay, siblings, defaults
 
 EXPLANATION = (
     'Decided: (R1) for every PER/UPER/OER type class and every assignment of its configuration conditions, each token path the encoder can '
@@ -121,55 +121,55 @@ def check(ctx):
                 ctx.violation('C01.R2', tab.rel, cell.ctor, "%s::Compiler dispatch['%s'] -> %s" % (tab.rel, name, c.qname),
                               'class %s has no real implementation of %s: values of ASN.1 type %s cannot be %s' % (c.qname, ', '.join(bad), name, 'round-tripped'),
                               stmt='abstract ' + ','.join(bad))
-    if n2 < 200:
+    if n2 < 150:
         raise AnalysisError('C01.R2 saw only %d dispatch cells' % n2)
 
-    # ---- R3 encoder side
-    for rel, qual in ((BER, 'MembersType.encode_member'), (PER, 'MembersType.encode_member'), (OER, 'MembersType.encode_member')):
-        f = model.func(rel, qual)
-        calls = [c for c in walk_no_nested(f) if isinstance(c, ast.Call) and isinstance(c.func, ast.Attribute) and c.func.attr == 'encode'
-                 and isinstance(c.func.value, ast.Name) and c.func.value.id == 'member']
-        if not calls:
-            raise AnalysisError('%s: no member.encode call' % Model.qual(f))
-        guarded = 0
-        for c in calls:
-            gs = flow.guards_of(c, f)
-            txt = ' && '.join(('' if pol else 'not ') + '(' + ast.unparse(t) + ')' for t, pol in gs)
-            ok = False
-            for t, pol in gs:
-                s = ast.unparse(t)
-                if pol and (NOT_IS_DEFAULT.search(s) or DEFAULT_IS_NONE.search(s)):
-                    ok = True
-                if (not pol) and (IS_DEFAULT.search(s) and not NOT_IS_DEFAULT.search(s)):
-                    ok = True
-                if pol and re.search(r'isinstance\([\w\.]+, AnyDefinedBy\)', s):
-                    ok = True
-            if ok:
-                guarded += 1
-            ctx.instance('C01.R3', '%s [%s]' % (Model.qual(f), txt[:90]), 'elides default' if ok else 'VIOLATION', node=c, file=rel)
-            if not ok:
-                ctx.violation('C01.R3', rel, c, Model.qual(f),
-                              'member.encode(...) is not conditional on `not member.is_default(value)` / `member.default is None`: a component equal to its DEFAULT is '
-                              'encoded although the decoder/canonical form expects it to be absent (or the presence bit says absent)', stmt=norm_stmt(Model.enclosing_stmt(c)))
-    for rel in (PER, OER):
-        f = model.func(rel, 'MembersType.encode_root')
-        ok = any(isinstance(c, ast.Call) and ast.unparse(c.func).endswith('append_bit') and NOT_IS_DEFAULT.search(ast.unparse(c)) for c in walk_no_nested(f))
-        ctx.instance('C01.R3', '%s presence bit of a DEFAULT member = not is_default(value)' % Model.qual(f), 'ok' if ok else 'VIOLATION', node=f, file=rel)
-        if not ok:
-            ctx.violation('C01.R3', rel, f, Model.qual(f), 'the presence bit of a DEFAULT member is no longer `not is_default(value)`: bitmap and encoded members disagree', stmt='default presence bit')
-    # decoder side
-    for rel, qual in ((BER, 'MembersType.decode_members'), (PER, 'MembersType.decode_root'), (OER, 'MembersType.decode_root'),
-                      ('asn1tools/codecs/jer.py', 'MembersType.decode'), ('asn1tools/codecs/xer.py', 'MembersType.decode')):
-        f = model.func(rel, qual)
-        ok = False
-        for a in walk_no_nested(f):
-            if isinstance(a, ast.Assign) and isinstance(a.targets[0], ast.Subscript) and ast.unparse(a.value) in ('member.get_default()', 'member.default'):
-                gs = flow.guards_of(a, f)
-                if any(pol and 'member.has_default()' in ast.unparse(t) for t, pol in gs):
-                    ok = True
-        ctx.instance('C01.R3', '%s restores the default of an absent member' % Model.qual(f), 'ok' if ok else 'VIOLATION', node=f, file=rel)
-        if not ok:
-            ctx.violation('C01.R3', rel, f, Model.qual(f), 'an absent DEFAULT member is no longer decoded as its default value (under has_default())', stmt='default restoration')
+    # ---- R3 encoder side: decided on the path summaries of the SEQUENCE/SET class family, wherever the code lives
+    n_enc = n_dec = n_bit = 0
+    fams = {}
+    for codec in ('ber', 'der', 'per', 'uper', 'oer', 'jer', 'xer'):
+        tab = dispatch.table(model, codec)
+        for tn in ('SEQUENCE', 'SET'):
+            cell = tab.cells.get(tn)
+            if cell is None or cell.cls is None:
+                raise AnalysisError('%s dispatch has no class for %s' % (codec, tn))
+            fams.setdefault(cell.cls.qname, (codec, cell.cls))
+    for qn, (codec, cls) in sorted(fams.items()):
+        rel = cls.mod.rel
+        if codec in ('ber', 'der', 'per', 'uper', 'oer'):
+            es = defaults.EncodeSites(cls)
+            for g, why in es.undecided:
+                ctx.instance('C01.R3', '%s member encode sites of %s' % (qn, Model.qual(g)), 'undecided', why, node=g, file=g._mod.rel)
+            for f, node, recv, why, how, conds in es.sites:
+                n_enc += 1
+                txt = ' && '.join(('' if c[1] else 'not ') + c[0] for c in conds)
+                ctx.instance('C01.R3', '%s: %s.encode (%s) [%s]' % (Model.qual(f), recv, how, txt[:90]), ('elides default: ' + why) if why else 'VIOLATION',
+                             node=node, file=f._mod.rel)
+                if why is None:
+                    ctx.violation('C01.R3', f._mod.rel, node, Model.qual(f),
+                                  '%s.encode(...) is reached on a path (%s) that does not exclude `%s has a DEFAULT and the value equals it`: a component equal to its '
+                                  'DEFAULT is encoded although the decoder/canonical form expects it to be absent (or the presence bit says absent)'
+                                  % (recv, txt or 'unconditional', recv), stmt=norm_stmt(Model.enclosing_stmt(node)))
+        if codec in ('per', 'uper', 'oer'):
+            vals = defaults.presence_bit_values(cls)
+            hit = [(f, e) for f, e in vals if NOT_IS_DEFAULT.search(ast.unparse(e))]
+            n_bit += 1
+            ctx.instance('C01.R3', '%s presence bit of a DEFAULT member = not is_default(value) (%d bit expressions)' % (qn, len(vals)),
+                         'ok' if hit else 'VIOLATION', node=cls.node, file=rel)
+            if not hit:
+                ctx.violation('C01.R3', rel, cls.node, qn, 'no presence bit written by this class family is `not is_default(value)`: the bitmap of a DEFAULT '
+                              'member and the encoded members disagree', stmt='default presence bit')
+        # decoder side
+        rs = defaults.restoration_sites(cls)
+        n_dec += 1
+        good = [r for r in rs if r[3]]
+        ctx.instance('C01.R3', '%s restores the default of an absent member (%d stores of a default)' % (qn, len(rs)), 'ok' if good else 'VIOLATION',
+                     node=cls.node, file=rel)
+        if not good:
+            ctx.violation('C01.R3', rel, (rs[0][1] if rs else cls.node), qn, 'an absent DEFAULT member is no longer decoded as its default value (under has_default())',
+                          stmt='default restoration')
+    if n_enc < 4 or n_dec < 4 or n_bit < 2:
+        raise AnalysisError('C01.R3 found too few sites (%d member encodes, %d decoders, %d bitmaps)' % (n_enc, n_dec, n_bit))
     # redirected defaults
     for m in model.modules.values():
         if not m.rel.startswith('asn1tools/codecs/'):
